@@ -76,6 +76,28 @@ type c06Layout struct {
 	contents map[string][]byte
 	stale    map[string][]byte
 	before   fsmon.Snapshot
+	arg      map[string]string // name -> the spelling handed to RunFiles when it is not dir/name
+}
+
+// c06LinkLayout: the searched file is named through a symbolic link to a directory elsewhere followed by `..`
+// (base/link/../a.txt is store/a.txt); a decoy of the same size sits where a lexical clean-up of the name would
+// look (base/a.txt). Everything - reading, splicing, writing - must happen at the place the name denotes.
+func c06LinkLayout(r *drv.Run, i int, rng *gen.Rng) *c06Layout {
+	l := &c06Layout{dir: filepath.Join(r.WorkDir, "c06", fmt.Sprint(i)), contents: map[string][]byte{}, stale: map[string][]byte{}, arg: map[string]string{}}
+	os.MkdirAll(filepath.Join(l.dir, "store", "deep"), 0o755)
+	os.MkdirAll(filepath.Join(l.dir, "base"), 0o755)
+	os.Symlink("../store/deep", filepath.Join(l.dir, "base", "link"))
+	sz := []int{7, 40, 200, 4097}[rng.Intn(4)]
+	real, decoy := c06Content(rng, sz), c06Content(rng, sz)
+	os.WriteFile(filepath.Join(l.dir, "store", "a.txt"), real, 0o644)
+	os.WriteFile(filepath.Join(l.dir, "base", "a.txt"), decoy, 0o644)
+	name := "store/a.txt"
+	l.names = []string{name}
+	l.contents[name] = real
+	l.arg[name] = filepath.Join(l.dir, "base", "link") + "/../a.txt"
+	os.WriteFile(filepath.Join(l.dir, "bystander.dat"), []byte("do not touch"), 0o600)
+	l.before = fsmon.Take(l.dir)
+	return l
 }
 
 func c06Setup(r *drv.Run, i int, rng *gen.Rng) *c06Layout {
@@ -160,7 +182,7 @@ func C06(r *drv.Run) {
 		n = 9000
 		ncli = 250
 	}
-	r.Rule = fmt.Sprint("RunFiles on scratch directories: ", len(c06Commands), " commands") + " (replacement shorter / longer / empty / identical to the matched text, a with-list of names that are unbound for all or some matches or map-valued (no value: the match is deleted), zero matches, adjacent matches, match at offset 0 and at EOF, captures, a transform, two commands over the same files, find commands) x 1..2 files of sizes 0, 1, 7, 40, 200, 4095..4097, 8191, 8193, 10 000 x {NOTHING, NEW, OVERWRITE}, plus large files (up to ~400 KB) whose unmatched stretches before, between and after 1..3 matches are exactly 16384 / 32768 / 65536 / 131072 bytes or one byte off, with stale longer .vored files and bystander files present. Oracle: directory snapshot (type, size, mode, SHA-256, inode) before/after must differ by exactly the change set the mode allows, and the written text must equal the splice of the original bytes with the replacements of the in-memory run at its spans; every file the library opens for writing (hook H5) must be in the allowed set. Sessions: 3..6 steps in ONE worker process over the same two paths - a file is rewritten between steps (often with different bytes of the SAME size), then one or two literal replace commands run in a random mode; the expected content of every file after every step comes from a harness-side model (sequential ReplaceAll for OVERWRITE, last command on the unchanged source for NEW), so nothing remembered from an earlier call or command may leak into a later one. Thorough tier additionally drives the built CLI under strace and checks every path opened for writing/creating/truncating, renamed, unlinked or truncated. Non-trivial = a replace run with >= 1 match in mode NEW or OVERWRITE whose output was verified; distinct by (command, layout, mode)."
+	r.Rule = fmt.Sprint("RunFiles on scratch directories: ", len(c06Commands), " commands") + " (replacement shorter / longer / empty / identical to the matched text, a with-list of names that are unbound for all or some matches or map-valued (no value: the match is deleted), zero matches, adjacent matches, match at offset 0 and at EOF, captures, a transform, two commands over the same files, find commands) x 1..2 files of sizes 0, 1, 7, 40, 200, 4095..4097, 8191, 8193, 10 000 x {NOTHING, NEW, OVERWRITE}, plus large files (up to ~400 KB) whose unmatched stretches before, between and after 1..3 matches are exactly 16384 / 32768 / 65536 / 131072 bytes or one byte off, and files named through a symbolic link to a directory elsewhere followed by `..` (a decoy of the same size sits at the lexically cleaned place), with stale longer .vored files and bystander files present. Oracle: directory snapshot (type, size, mode, SHA-256, inode) before/after must differ by exactly the change set the mode allows, and the written text must equal the splice of the original bytes with the replacements of the in-memory run at its spans; every file the library opens for writing (hook H5) must be in the allowed set. Sessions: 3..6 steps in ONE worker process over the same two paths - a file is rewritten between steps (often with different bytes of the SAME size), then one or two literal replace commands run in a random mode; the expected content of every file after every step comes from a harness-side model (sequential ReplaceAll for OVERWRITE, last command on the unchanged source for NEW), so nothing remembered from an earlier call or command may leak into a later one. Thorough tier additionally drives the built CLI under strace and checks every path opened for writing/creating/truncating, renamed, unlinked or truncated. Non-trivial = a replace run with >= 1 match in mode NEW or OVERWRITE whose output was verified; distinct by (command, layout, mode)."
 	r.Assumptions = []string{
 		"the spans and replacements spliced are those of Run on the same bytes (C01/C05/C07 judge those)",
 		"with two replace commands in one source each command rewrites from the file as the previous command left it (OVERWRITE) or from the unchanged source (NEW): the expected text is computed accordingly",
@@ -171,12 +193,18 @@ func C06(r *drv.Run) {
 		nbig = 240
 	}
 	bigCmds := []int{0, 1, 3, 12}
-	r.Exec(n+nbig, drv.ExecOpts{Batch: 25}, func(i int) *drv.Item {
+	nlink := 16
+	r.Exec(n+nbig+nlink, drv.ExecOpts{Batch: 25}, func(i int) *drv.Item {
 		rng := gen.Derive(r.Seed, "C06", i)
 		cmd := c06Commands[i%len(c06Commands)]
 		mode := modes[(i/len(c06Commands))%3]
 		var l *c06Layout
-		if i >= n {
+		if i >= n+nbig {
+			cmd = c06Commands[bigCmds[(i-n-nbig)%len(bigCmds)]]
+			mode = modes[1+((i-n-nbig)/len(bigCmds))%2]
+			l = c06LinkLayout(r, i, rng)
+			r.Count("layouts_named_through_link_and_dotdot", 1)
+		} else if i >= n {
 			cmd = c06Commands[bigCmds[(i-n)%len(bigCmds)]]
 			mode = modes[1+((i-n)/len(bigCmds))%2]
 			if (i-n)%11 == 10 {
@@ -189,7 +217,11 @@ func C06(r *drv.Run) {
 		var paths []string
 		var texts [][]byte
 		for _, nm := range l.names {
-			paths = append(paths, filepath.Join(l.dir, nm))
+			if a, ok := l.arg[nm]; ok {
+				paths = append(paths, a)
+			} else {
+				paths = append(paths, filepath.Join(l.dir, nm))
+			}
 			texts = append(texts, l.contents[nm])
 		}
 		c := wire.Case{Op: "runfiles", Src: []byte(cmd.src), Files: paths, Mode: mode, Texts: texts, StepBudget: 20_000_000}
@@ -281,6 +313,13 @@ func c06Check(r *drv.Run, l *c06Layout, src string, replace bool, mode string, c
 	}
 	// write-open log from inside the library
 	for _, w := range fr.WriteOpens {
+		// the place the opened name denotes (links resolved by the file system, not lexically)
+		if k := strings.LastIndexByte(w, '/'); k > 0 {
+			// (filepath.Dir would clean the name lexically first)
+			if d, err := filepath.EvalSymlinks(w[:k]); err == nil {
+				w = d + "/" + w[k+1:]
+			}
+		}
 		rel, _ := filepath.Rel(l.dir, w)
 		r.Count("write_opens_checked", 1)
 		if !allowed[rel] {
